@@ -1,6 +1,7 @@
 package aescmac
 
 import (
+	"github.com/tink-crypto/tink-go/v2/internal/verifh"
 	"github.com/tink-crypto/tink-go/v2/insecuresecretdataaccess"
 	"github.com/tink-crypto/tink-go/v2/internal/internalapi"
 	"github.com/tink-crypto/tink-go/v2/internal/verifrt"
@@ -82,4 +83,9 @@ func VerifH_cmacmac_validate() {
 	_, err = macsubtle.NewAESCMAC(verifrt.Bytes("k", kl), ts)
 	verifrt.Assert((err == nil) == ((kl == 16 || kl == 24 || kl == 32) && ts >= 10 && ts <= 16), "NewAESCMAC accepts exactly AES key sizes and tags 10..16")
 	verifrt.Reach("end")
+}
+
+func VerifH_c19_aescmac() {
+	m, _, _, _, _ := build()
+	verifh.CheckMACNoWrite(m)
 }
